@@ -1737,6 +1737,19 @@ def _value_text(node):
     return ast.unparse(ast.fix_missing_locations(Strip().visit(util.clone(node))))
 
 
+def _queries_about_values(t):
+    """VSA queries in the test `t` whose *answer* the test looks at: `len(<query>)` only counts the listed values"""
+    out, stack = [], [t]
+    while stack:
+        n = stack.pop()
+        if _is_width_call(n):
+            continue
+        if isinstance(n, ast.Call) and (dotted(n.func) or "").startswith("claripy.backends.vsa."):
+            out.append(n)
+        stack.extend(ast.iter_child_nodes(n))
+    return out
+
+
 def _vsa_fact_subjects(fn):
     """names of locals whose value comes out of a VSA query (claripy.backends.vsa.<q>(..)) -> the query's argument text"""
     out = {}
@@ -1843,65 +1856,78 @@ def c25_valid(R):
                 )
                 R.need(ok_map, f"{name}: operator of the rebuilt comparison `{norm(oe)[:80]}` is neither the original one nor a literal table of it")
                 opmap = {k_.value: v_.value for k_, v_ in zip(oe.func.value.keys, oe.func.value.values)}
-            allowed = set(_CMP_OPS)
-            covered = {}
             facts = guards.guards_of(r)
             held = [ast.unparse(t) for t, pol in facts if pol]
+            # a disjunction that holds is a case split: the rewrite has to be justified in every case (a range fact in one
+            # arm of an `or` says nothing where the other arm is the one that held)
+            cases = [[]]
             for t, pol in facts:
-                # operator restrictions
-                if isinstance(t, ast.Compare) and len(t.ops) == 1 and ast.unparse(t.left) == "truism.op":
-                    c = t.comparators[0]
-                    vals = None
-                    if isinstance(c, ast.Constant):
-                        vals = {c.value}
-                    elif isinstance(c, (ast.Tuple, ast.List, ast.Set)):
-                        vals = {e.value for e in c.elts if isinstance(e, ast.Constant)}
-                    if vals is not None and isinstance(t.ops[0], (ast.In, ast.NotIn, ast.Eq, ast.NotEq)):
-                        positive = isinstance(t.ops[0], (ast.In, ast.Eq)) == pol
-                        allowed = allowed & vals if positive else allowed - vals
-                # range facts: a VSA query that holds on this path and talks about the operand whose bits are discarded
-                if not pol or subjects is None:
-                    continue
-                queries = [c for c in ast.walk(t) if isinstance(c, ast.Call) and (dotted(c.func) or "").startswith("claripy.backends.vsa.")]
-                # a flag that is assigned on several branches (query result / None) is not inlined: follow it
-                for x in ast.walk(t):
-                    if isinstance(x, ast.Name):
-                        for v_ in assigned_values(x.id):
-                            queries += [c for c in ast.walk(v_) if isinstance(c, ast.Call) and (dotted(c.func) or "").startswith("claripy.backends.vsa.")]
-                for q in queries:
-                    # widths (len(..), .size()) are not uses of the value; names that could not be inlined (assigned
-                    # on several branches) are followed to what they were assigned from
-                    texts, seen_names, work = [_value_text(q)], set(), [q]
-                    for _ in range(3):
-                        nxt = []
-                        for node_ in work:
-                            for nm in _value_names(node_) - seen_names:
-                                seen_names.add(nm)
-                                for v_ in assigned_values(nm):
-                                    texts.append(_value_text(v_))
-                                    nxt.append(v_)
-                        work = nxt
-                    text = " ; ".join(texts)
-                    for gi, group in enumerate(subjects):
-                        for subj in group:
-                            if re.search(r"(?<![\w.])" + re.escape(subj) + r"(?![\w])", text):
-                                covered[gi] = ast.unparse(q)[:80]
-            range_fact = "; ".join(covered[g] for g in sorted(covered)) if subjects is not None and len(covered) == len(subjects) else None
-            # a range fact about discarded bits carries an *unsigned* comparison or an (in)equality over; a signed one
-            # only where both sides are known to agree on their high bits, the sign included (zero high bits, or a sign
-            # extension with the same constant high bits), and it is rebuilt as its unsigned counterpart on the low bits
-            unsigned_eq = {"ULT", "ULE", "UGT", "UGE", "__eq__", "__ne__"}
-            to_unsigned = {"SLT": "ULT", "SLE": "ULE", "SGT": "UGT", "SGE": "UGE"}
+                alts = [(d, True) for d in t.values] if pol and isinstance(t, ast.BoolOp) and isinstance(t.op, ast.Or) else [(t, pol)]
+                cases = [c_ + [alt] for c_ in cases for alt in alts] if len(cases) * len(alts) <= 16 else [c_ + [(t, pol)] for c_ in cases]
             bad_ops = set()
-            for o_ in allowed:
-                o2 = opmap.get(o_, o_)
-                if o2 == o_ and o_ in valid_ops:
-                    continue
-                if range_fact is not None and o2 == o_ and o_ in unsigned_eq:
-                    continue
-                if range_fact is not None and name in ("_balance_zeroext", "_balance_concat", "_balance_signext") and to_unsigned.get(o_) == o2:
-                    continue
-                bad_ops.add(o_)
+            allowed_all = set()
+            range_facts = []
+            for case in cases:
+                allowed = set(_CMP_OPS)
+                covered = {}
+                for t, pol in case:
+                    # operator restrictions
+                    if isinstance(t, ast.Compare) and len(t.ops) == 1 and ast.unparse(t.left) == "truism.op":
+                        c = t.comparators[0]
+                        vals = None
+                        if isinstance(c, ast.Constant):
+                            vals = {c.value}
+                        elif isinstance(c, (ast.Tuple, ast.List, ast.Set)):
+                            vals = {e.value for e in c.elts if isinstance(e, ast.Constant)}
+                        if vals is not None and isinstance(t.ops[0], (ast.In, ast.NotIn, ast.Eq, ast.NotEq)):
+                            positive = isinstance(t.ops[0], (ast.In, ast.Eq)) == pol
+                            allowed = allowed & vals if positive else allowed - vals
+                    # range facts: a VSA query that holds on this path and talks about the operand whose bits are discarded
+                    if not pol or subjects is None:
+                        continue
+                    queries = _queries_about_values(t)
+                    # a flag that is assigned on several branches (query result / None) is not inlined: follow it
+                    # (how many values a query listed - len(..) of its result - is not a fact about the values)
+                    for nm_ in sorted(_value_names(t)):
+                        for v_ in assigned_values(nm_):
+                            queries += [c for c in ast.walk(v_) if isinstance(c, ast.Call) and (dotted(c.func) or "").startswith("claripy.backends.vsa.")]
+                    for q in queries:
+                        # widths (len(..), .size()) are not uses of the value; names that could not be inlined (assigned
+                        # on several branches) are followed to what they were assigned from
+                        texts, seen_names, work = [_value_text(q)], set(), [q]
+                        for _ in range(3):
+                            nxt = []
+                            for node_ in work:
+                                for nm in _value_names(node_) - seen_names:
+                                    seen_names.add(nm)
+                                    for v_ in assigned_values(nm):
+                                        texts.append(_value_text(v_))
+                                        nxt.append(v_)
+                            work = nxt
+                        text = " ; ".join(texts)
+                        for gi, group in enumerate(subjects):
+                            for subj in group:
+                                if re.search(r"(?<![\w.])" + re.escape(subj) + r"(?![\w])", text):
+                                    covered[gi] = ast.unparse(q)[:80]
+                range_fact = "; ".join(covered[g] for g in sorted(covered)) if subjects is not None and len(covered) == len(subjects) else None
+                # a range fact about discarded bits carries an *unsigned* comparison or an (in)equality over; a signed one
+                # only where both sides are known to agree on their high bits, the sign included (zero high bits, or a sign
+                # extension with the same constant high bits), and it is rebuilt as its unsigned counterpart on the low bits
+                unsigned_eq = {"ULT", "ULE", "UGT", "UGE", "__eq__", "__ne__"}
+                to_unsigned = {"SLT": "ULT", "SLE": "ULE", "SGT": "UGT", "SGE": "UGE"}
+                for o_ in allowed:
+                    o2 = opmap.get(o_, o_)
+                    if o2 == o_ and o_ in valid_ops:
+                        continue
+                    if range_fact is not None and o2 == o_ and o_ in unsigned_eq:
+                        continue
+                    if range_fact is not None and name in ("_balance_zeroext", "_balance_concat", "_balance_signext") and to_unsigned.get(o_) == o2:
+                        continue
+                    bad_ops.add(o_)
+                allowed_all |= allowed
+                range_facts.append(range_fact)
+            allowed = allowed_all
+            range_fact = None if any(f is None for f in range_facts) else "; ".join(sorted(set(range_facts)))
             ok = not bad_ops
             # the key of a finding must not depend on the locals' names: it is taken from the resolved function
             R.check(
@@ -2076,3 +2102,88 @@ def c21_narrow(R):
                     f"contains values above the mask",
                 )
     R.need(n >= 2, f"only {n} truncation shortcuts found")
+
+
+# ----------------------------------------------------------------------------- C23.regionkey
+
+
+def _region_map(e):
+    """`X._regions` / `X.regions` -> text of X"""
+    if isinstance(e, ast.Attribute) and e.attr in ("_regions", "regions"):
+        return ast.unparse(e.value)
+    return None
+
+
+def _region_iter(e):
+    """an iterable over a region map: the map itself, .values() / .items() / .keys() of it -> receiver text"""
+    if isinstance(e, ast.Call) and isinstance(e.func, ast.Attribute) and e.func.attr in ("values", "items", "keys") and not e.args:
+        return _region_map(e.func.value)
+    return _region_map(e)
+
+
+@rule(
+    "C23.regionkey",
+    props=("C23",),
+    floor=4,
+    family="SIB",
+    desc="a ValueSet operation pairs the offsets of two value-sets by region *key*: where a per-region value of one "
+    "operand meets a per-region value of another, both are taken under the same key, and two region maps are never "
+    "walked side by side by position (the order of a region map is the order in which its regions were added)",
+)
+def c23_regionkey(R):
+    tree = R.tree
+    m = tree.mod(VS)
+    n = 0
+    for q, fn in m.functions.items():
+        # loop / comprehension variables over `<recv>.regions.items()`: value variable -> (receiver, key variable)
+        loopvals = {}
+        for lp in (x for x in ast.walk(fn) if isinstance(x, (ast.For, ast.comprehension))):
+            it = lp.iter
+            if isinstance(it, ast.Call) and isinstance(it.func, ast.Attribute) and it.func.attr == "items" and _region_map(it.func.value) is not None:
+                tg = lp.target
+                if isinstance(tg, ast.Tuple) and len(tg.elts) == 2 and all(isinstance(e, ast.Name) for e in tg.elts):
+                    loopvals[tg.elts[1].id] = (_region_map(it.func.value), tg.elts[0].id)
+
+        def region_value(e):
+            if isinstance(e, ast.Subscript) and _region_map(e.value) is not None:
+                return _region_map(e.value), ast.unparse(e.slice)
+            if isinstance(e, ast.Name) and e.id in loopvals:
+                return loopvals[e.id]
+            return None
+
+        for x in walk_no_nested(fn):
+            pairs = []
+            if isinstance(x, ast.BinOp):
+                pairs.append((x.left, x.right))
+            elif isinstance(x, ast.Compare) and len(x.comparators) == 1:
+                pairs.append((x.left, x.comparators[0]))
+            elif isinstance(x, ast.Call) and isinstance(x.func, ast.Attribute) and len(x.args) == 1:
+                pairs.append((x.func.value, x.args[0]))
+            for a, b in pairs:
+                ra, rb = region_value(a), region_value(b)
+                if ra is None or rb is None or ra[0] == rb[0]:
+                    continue
+                n += 1
+                R.check(
+                    ra[1] == rb[1],
+                    m,
+                    x,
+                    f"{q}: offsets of two value-sets meet under one region key",
+                    f"{q} combines `{norm(a)[:50]}` (region {ra[1]} of {ra[0]}) with `{norm(b)[:50]}` (region {rb[1]} of {rb[0]}): the offsets "
+                    f"of different regions are unrelated numbers",
+                    construct=f"{q}: per-region values of two value-sets paired under different keys",
+                )
+            if isinstance(x, ast.Call) and isinstance(x.func, ast.Name) and x.func.id == "zip":
+                recvs = [_region_iter(a) for a in x.args if not isinstance(a, ast.Starred)]
+                recvs = [r_ for r_ in recvs if r_ is not None]
+                if len(set(recvs)) >= 2:
+                    n += 1
+                    R.bad(
+                        m,
+                        x,
+                        f"{q} walks the region maps of {sorted(set(recvs))} side by side (`{norm(x)[:90]}`): a region map keeps the order "
+                        f"in which its regions were added, so two value-sets over the same regions, built in different orders, have "
+                        f"the offsets of one region combined with those of another",
+                        construct=f"{q}: region maps paired by position",
+                    )
+    R.need(n >= 4, f"only {n} places found where per-region values of two value-sets meet")
